@@ -122,3 +122,31 @@ Theorem C06_history_entry_points_agree : forall default registered qs qs',
   map outcome (gate_history default registered qs) = map outcome (gate_history default registered qs').
 Proof. exact gate_history_entry_points_agree. Qed.
 Print Assumptions C06_history_entry_points_agree.
+
+(* ---- the operation's parameter set (a body parameter, none, only path / query / header, formData) has no say at
+   the gate. reflective k form_st g = what the reflective entry point serves once the gate answered g, for an
+   operation of parameter set k (form_st = answer of the form stage of a formData operation) ---- *)
+Theorem C06_gate_refusal_whatever_the_operation_reads : forall k form_st hasbody parse consumes keys s,
+  parse <> Some [] ->
+  fst (expected hasbody parse consumes keys) = Some s ->
+  reflective k form_st (gate_untyped hasbody parse parse consumes keys) = (Some s, None).
+Proof. exact reflective_refusal. Qed.
+Print Assumptions C06_gate_refusal_whatever_the_operation_reads.
+
+Theorem C06_reflective_entry_meets_spec : forall k form_st hasbody parse consumes keys,
+  parse <> Some [] ->
+  reflective_ok k (is_some form_st) (expected hasbody parse consumes keys)
+    (fst (reflective k form_st (gate_untyped hasbody parse parse consumes keys)))
+    (snd (reflective k form_st (gate_untyped hasbody parse parse consumes keys)))
+    (is_none (fst (reflective k form_st (gate_untyped hasbody parse parse consumes keys)))) = true.
+Proof. exact reflective_meets_spec. Qed.
+Print Assumptions C06_reflective_entry_meets_spec.
+
+(* a refusal served by the reflective entry point is the gate's, or the form stage's of a formData operation *)
+Theorem C06_reflective_refusal_origin : forall k f hasbody parse consumes keys s,
+  parse <> Some [] ->
+  fst (reflective k f (gate_untyped hasbody parse parse consumes keys)) = Some s ->
+  fst (expected hasbody parse consumes keys) = Some s \/
+  (k = KForm /\ f = Some s /\ fst (expected hasbody parse consumes keys) = None).
+Proof. exact reflective_refusal_origin. Qed.
+Print Assumptions C06_reflective_refusal_origin.
